@@ -228,6 +228,8 @@ class Overlay:
                 fn['loops'][cur[1]] = fn['loops'].get(cur[1], '') + body
             elif kind == 'fn-at':
                 cur[1]['text'] += body
+            elif kind == 'fn-after-loop':
+                fn['after_loops'][cur[1]] = fn['after_loops'].get(cur[1], '') + body
             elif kind == 'item-replace':
                 self.items[cur[1]] = ('replace', body)
             elif kind == 'item-attr':
@@ -259,13 +261,18 @@ class Overlay:
                     header = norm(parts[1]) if len(parts) > 1 else ''
                     name = parts[2]
                     mode = parts[3] if len(parts) > 3 and parts[3] else 'verify'
-                    fn = {'mode': mode, 'spec': '', 'loops': {}, 'ats': [], 'attrs': ''}
+                    fn = {'mode': mode, 'spec': '', 'loops': {}, 'ats': [], 'attrs': '', 'r7': [], 'after_loops': {}}
                     if len(parts) > 4:
                         fn['attrs'] = parts[4]
                     self.fns[(f, header, name)] = fn
                     cur = ('fn-spec', None)
                 elif d[0] == 'loop':
                     cur = ('fn-loop', int(d[1]))
+                elif d[0] == 'after-loop':
+                    cur = ('fn-after-loop', int(d[1]))
+                elif d[0] == 'r7':
+                    fn['r7'].append(int(d[1]))
+                    cur = None
                 elif d[0] == 'at':
                     # @@at <n> before|after | anchor text
                     at = {'n': int(d[1]), 'where': d[2], 'anchor': s[2:].split('|', 1)[1].strip(), 'text': ''}
@@ -410,12 +417,39 @@ class Assembler:
             if r3:
                 edits.extend(r3['edits'])
                 rules.append('R3')
+        # R7 `for P in &E {` -> `for P in E.iter() {` (listed loops only; <&BTreeMap as IntoIterator>::into_iter is `iter()`)
+        for n in cfg.get('r7', []):
+            if n >= len(loop_idx) or toks[loop_idx[n]].text != 'for':
+                self.errors.append('lost anchor: R7 loop %d of %s in %s' % (n, qual, rel))
+                continue
+            b = find_body_open(toks, loop_idx[n] + 1)
+            q = loop_idx[n] + 1
+            depth = 0
+            while q < b and not (toks[q].kind == 'ident' and toks[q].text == 'in' and depth == 0):
+                if toks[q].text in '([':
+                    depth += 1
+                elif toks[q].text in ')]':
+                    depth -= 1
+                q += 1
+            if q + 1 < b and toks[q + 1].text == '&' and toks[q + 1].kind == 'punct':
+                edits.append((toks[q + 1].start, 1, ''))
+                edits.append((toks[b - 1].end, 0, '.iter()'))
+                rules.append('R7')
+            else:
+                self.errors.append('R7: loop %d of %s is not `for P in &E`' % (n, qual))
         for n, text in cfg['loops'].items():
             if n >= len(loop_idx):
                 self.errors.append('lost anchor: loop %d of %s in %s' % (n, qual, rel))
                 continue
             b = find_body_open(toks, loop_idx[n] + 1)
             edits.append((toks[b].start, 0, '\n' + text.rstrip() + '\n'))
+        for n, text in cfg.get('after_loops', {}).items():
+            if n >= len(loop_idx):
+                self.errors.append('lost anchor: after-loop %d of %s in %s' % (n, qual, rel))
+                continue
+            b = find_body_open(toks, loop_idx[n] + 1)
+            c = match_close(toks, b)
+            edits.append((toks[c].end, 0, '\n' + text.rstrip() + '\n'))
         body_lo, body_hi = toks[it.body_open].start, toks[it.body_close].end
         for at in cfg['ats']:
             pos = body_lo
